@@ -480,13 +480,54 @@ def run_block_num(block):
     return rep.close_block()
 
 
+URLCASES = [   # (signature, call, expected attribute texts): the url type reads its argument with # ~ % & as other characters
+    ('[ u:url ] b', '{A% note\nB}', {'u': None, 'b': 'AB'}),
+    ('[ u:url ] b', '[x%y~z]{A% note\nB}', {'u': 'x%y~z', 'b': 'AB'}),
+    ('[ u:url ] b c', '{A}{C% n\nD}', {'u': None, 'b': 'A', 'c': 'CD'}),
+    ('u:url b', '{p#q&r}{A% note\nB}', {'u': 'p#q&r', 'b': 'AB'}),
+    ('* [ u:url ] b', '*{A% note\nB}', {'*modifier*': '*', 'u': None, 'b': 'AB'}),
+]
+
+
+def run_block_url(block):
+    rep = core.Report()
+    for sig, call, exp in URLCASES:
+        try:
+            with core.time_limit(10):
+                attrs, argsrc, text, lvl, depth, nn = run_call(sig, call)
+        except Exception as e:
+            attrs, text, lvl, depth = {'error': '%s: %s' % (type(e).__name__, e)}, None, None, None
+        obs = {}
+        for k, v in attrs.items():
+            if isinstance(v, tuple) and v and v[0] in ('tok', 'toks'):
+                v = v[1]
+            if isinstance(v, list):
+                v = ''.join(str(x) for x in v)
+            obs[k] = v
+        ok = obs == exp and text == TAIL and lvl == 0 and depth == 1
+        rep.case(key=('url', sig, call), nontrivial=True, outcome=repr(sorted(obs.items(), key=repr)))
+        rep.count('url_typed')
+        if not ok:
+            rep.violation({'kind': 'url', 'sig': sig, 'call': call}, exp, {'attrs': obs, 'tail': text, 'level': lvl, 'depth': depth},
+                          'signature %r call %r' % (sig, call))
+    return rep.close_block()
+
+
 def run_block(block):
+    if block[0] == 'url':
+        return run_block_url(block)
     if block[0] == 'sig':
         return run_block_sig(block[1:])
     return run_block_num(block[1:])
 
 
 def replay(case):
+    if case['kind'] == 'url':
+        r = run_block_url(('url',))
+        for v in r.violations:
+            if v['case']['sig'] == case['sig'] and v['case']['call'] == case['call']:
+                return {'verdict': 'violation', 'expected': v['expected'], 'observed': v['observed'], 'detail': v['detail']}
+        return {'verdict': 'ok', 'expected': None, 'observed': None, 'detail': ''}
     if case['kind'] == 'sig':
         args = tuple(tuple(a) for a in case['args'])
         for call, exp in calls(case['star'], args, 99):
@@ -536,6 +577,7 @@ def run(tier, seed, rep):
         for i in range(NS):
             blocks.append(('num', part, quick, i, NS))
     blocks.append(('num', 'decimal', quick, 0, 1))
+    blocks.append(('url',))
     blocks.append(('num', 'doc', quick, 0, 1))
     blocks = core.rotate(blocks, seed)
     core.merge_all(run_block, blocks, rep)
